@@ -93,10 +93,11 @@ claim('C02',
       "condition holds), DIVIDE_BY_ZERO iff d == 0, over an ASSUMED mpn_mod_1. mpz_{t,f,c}div_q_ui and _qr_ui (all alias partitions) over an ASSUMED mpn_divrem_1: "
       "the adjustment |q| = |q_trunc| + 1 is PROVED on the limbs (MPN_INCR_U loop: trailing all-ones limbs become 0, the next limb is incremented, the rest unchanged), "
       "applied exactly when r != 0 and the sign condition holds; quotient size and sign, remainder sign, return value |r|. mpz_divisible_2exp_p: 1 exactly when the low d bits of |a| are "
-      "zero (witness limb for the answer 0), only 0 divisible when d reaches past the top limb. BOUNDED stand-in (complete enumeration of 431 small operands x 19 shift counts x aliasing, not proof): "
+      "zero (witness limb for the answer 0), only 0 divisible when d reaches past the top limb. mpz_tdiv_q_2exp: unbounded limb-exact proof (every limb of |w| is bits [cnt+64k, cnt+64k+64) of |u|, size, sign, w == u) over the proved mpn_rshift / copy contracts. "
+      "BOUNDED stand-in (complete enumeration of 431 small operands x 19 shift counts x aliasing, not proof): "
       "mpz_{t,f,c}div_{q,r}_2exp satisfy u == q*2^cnt + r with the remainder range of the rounding mode.",
       TB + "In the floor/ceiling glue mpz_tdiv_qr/q/r are ASSUMED (uninterpreted quotient/remainder with sgn r in {0, sgn n}, |r| < |d|); values are 64-bit tokens for the interpreted "
-      "+/- steps. NOT covered: the quotient/remainder VALUES of the truncating family (mpn_tdiv_qr is assumed), the _2exp forms beyond the bounded enumeration, mpn_tdiv_qr/divrem/divrem_1/mod_1, divexact, divisible_p/_ui_p, congruent_*, "
+      "+/- steps. NOT covered: the quotient/remainder VALUES of the truncating family (mpn_tdiv_qr is assumed), the _2exp forms other than mpz_tdiv_q_2exp beyond the bounded enumeration, mpn_tdiv_qr/divrem/divrem_1/mod_1, divexact, divisible_p/_ui_p, congruent_*, "
       "and the word-division primitives (undecided by SAT, DESIGN 8).", technique='contract-based glue proof against assumed callee contracts (value tokens, CBMC)')
 claim('C17',
       "mpz_inp_raw: for EVERY 4-byte header the body region lies inside the (re)allocated block (no out-of-bounds write for any byte stream), the header "
@@ -105,11 +106,12 @@ claim('C17',
       "big-endian magnitude without leading zero bytes, every limb placed exactly; returns 0 iff the write fails; the scratch block is freed with its "
       "exact size on both paths and nothing leaks. mpz_export with byte-sized words (size == 1) and EVERY nail count 0..7, both orders, unbounded operand length: the word count is "
       "exact and word w holds exactly the k-bit field [wk, wk+k) of |z| (k = 8 - nail), fields straddling limbs and the zero-extended top word included, nothing outside the "
-      "count bytes is written. BOUNDED stand-in (not proof) for the rest of the parameter space: complete enumeration of size{1,2,3,4,5,8,9,16} x every nail x order x "
+      "count bytes is written (nail counts 0, 4, 6, 7 in the quick tier; 1, 2, 3, 5 take 8-15 min each and run in the thorough tier). mpz_import with byte-sized words and every nail count 0..7 (the inverse relation: word w "
+      "contributes its low k bits as the field [wk, wk+k) of the result, nail bits ignored, result normalised; quick tier). BOUNDED stand-in (not proof) for the rest of the parameter space: complete enumeration of size{1,2,3,4,5,8,9,16} x every nail x order x "
       "endian x alignment over operands of 0..3 limbs from a five-letter limb alphabet - export against the bit-field definition, then import of the result.",
       TB + "fread/fwrite are stubs with the ISO C contract (any transfer count <= requested, arbitrary buffer contents). The byte-level round trip "
       "inp_raw(out_raw(x)) == x is the composition of the two limb-placement contracts (stated in DESIGN, not a separate machine-checked lemma). NOT "
-      "covered by proof: mpz_export for word sizes other than 1 (incl. the whole-limb fast paths), mpz_import, out_str/inp_str for mpz/mpq/mpf, gmp_fprintf. In the export units "
+      "covered by proof: mpz_export / mpz_import for word sizes other than 1 (incl. the whole-limb fast paths), out_str/inp_str for mpz/mpq/mpf, gmp_fprintf. In the export units "
       "the address idiom `(char *) data - (char *) NULL` is REWRITTEN to an integer cast (the one spot where the verified text differs from /repo, stated in the evidence).",
       technique='contract-based proof (CBMC, inductive invariants) + bounded native enumeration of the export/import parameter space (labelled bounded)')
 
